@@ -504,7 +504,10 @@ Definition cb_of_code (k : N) : cb :=
    [runs c] = handleEventWithGuard of c runs (untied, or tied and owner alive).
    While dispatching, EventLoop::removeChannel asserts that the removed channel is the one being
    handled or is not in activeChannels_ (EventLoop.cc:212-216) and ~Channel asserts !eventHandling_
-   (Channel.cc:39): violations are [Rejected] like the other documented preconditions. *)
+   (Channel.cc:39): violations are [Rejected] like the other documented preconditions.
+   The assert compares OBJECTS (pointers): a Channel destroyed during the batch leaves the snapshot
+   ([snap_step]), so a fresh object constructed under the same id is not "in activeChannels_"
+   (assuming the allocator does not hand out the address of the destroyed object again). *)
 Definition handlers := nat -> cb -> list op.
 
 Definition in_snap (c : nat) (snap : list nat) : bool := existsb (Nat.eqb c) snap.
@@ -517,6 +520,13 @@ Definition loop_guard (snap : list nat) (cur : nat) (o : op) : bool :=
   | _ => true
   end.
 
+Definition snap_step (snap : list nat) (o : op) : list nat :=
+  match o with
+  | Del c => filter (fun x => negb (Nat.eqb x c)) snap
+  | _ => snap
+  end.
+Definition snap_run (snap : list nat) (ops : list op) : list nat := fold_left snap_step ops snap.
+
 Definition callbacks_g (runs : nat -> bool) (a : active) : list (nat * cb) :=
   flat_map (fun cr => map (pair (fst cr)) (if runs (fst cr) then dispatch (snd cr) else [])) a.
 Definition batch_ops (h : handlers) (log : list (nat * cb)) : list op :=
@@ -526,18 +536,18 @@ Section LoopIter.
 Variable S : Type.
 Variable step : S -> op -> res (S * active).
 
-Fixpoint run_cb_ops (snap : list nat) (cur : nat) (st : S) (ops : list op) : res S :=
+Fixpoint run_cb_ops (snap : list nat) (cur : nat) (st : S) (ops : list op) : res (S * list nat) :=
   match ops with
-  | [] => Ok st
-  | o :: t => if loop_guard snap cur o then r <- step st o ;; run_cb_ops snap cur (fst r) t else Rejected
+  | [] => Ok (st, snap)
+  | o :: t => if loop_guard snap cur o then r <- step st o ;; run_cb_ops (snap_step snap o) cur (fst r) t else Rejected
   end.
 
 Fixpoint dispatch_cbs (h : handlers) (snap : list nat) (cur : nat) (st : S) (ks : list cb)
-  : res (S * list (nat * cb)) :=
+  : res (S * list nat * list (nat * cb)) :=
   match ks with
-  | [] => Ok (st, [])
-  | k :: t => st1 <- run_cb_ops snap cur st (h cur k) ;;
-              r <- dispatch_cbs h snap cur st1 t ;; Ok (fst r, (cur, k) :: snd r)
+  | [] => Ok (st, snap, [])
+  | k :: t => r1 <- run_cb_ops snap cur st (h cur k) ;;
+              r <- dispatch_cbs h (snd r1) cur (fst r1) t ;; Ok (fst r, (cur, k) :: snd r)
   end.
 
 Fixpoint dispatch_batch (h : handlers) (runs : nat -> bool) (snap : list nat) (st : S) (act : active)
@@ -545,7 +555,7 @@ Fixpoint dispatch_batch (h : handlers) (runs : nat -> bool) (snap : list nat) (s
   match act with
   | [] => Ok (st, [])
   | cr :: t => r1 <- dispatch_cbs h snap (fst cr) st (if runs (fst cr) then dispatch (snd cr) else []) ;;
-               r2 <- dispatch_batch h runs snap (fst r1) t ;; Ok (fst r2, snd r1 ++ snd r2)
+               r2 <- dispatch_batch h runs (snd (fst r1)) (fst (fst r1)) t ;; Ok (fst r2, snd r1 ++ snd r2)
   end.
 
 (* poll, then dispatch the snapshot: (state, activeChannels_, callbacks run in order) *)
@@ -563,13 +573,13 @@ Definition pp_loop_iter_current := loop_iter pp pp_step_current.
 Fixpoint cb_ops_ok (snap : list nat) (cur : nat) (sp : spec) (ops : list op) : Prop :=
   match ops with
   | [] => True
-  | o :: t => loop_guard snap cur o = true /\ sguard sp o /\ cb_ops_ok snap cur (spec_step sp o) t
+  | o :: t => loop_guard snap cur o = true /\ sguard sp o /\ cb_ops_ok (snap_step snap o) cur (spec_step sp o) t
   end.
 Fixpoint batch_ok (h : handlers) (snap : list nat) (sp : spec) (log : list (nat * cb)) : Prop :=
   match log with
   | [] => True
   | ck :: t => cb_ops_ok snap (fst ck) sp (h (fst ck) (snd ck)) /\
-               batch_ok h snap (spec_run sp (h (fst ck) (snd ck))) t
+               batch_ok h (snap_run snap (h (fst ck) (snd ck))) (spec_run sp (h (fst ck) (snd ck))) t
   end.
 
 (* ---- the loop's own descriptors: wake-up eventfd and timerfd (EventLoop.cc:234-252, TimerQueue.cc:57-66)
@@ -615,3 +625,117 @@ Definition loop_iter_env (h : handlers) (runs : nat -> bool) (eff : nat -> cb ->
   r <- loop_iter S step h runs st (env_ready wfd tfd e) choice ;;
   Ok (r, apply_effects eff (snd r) e).
 End LoopEnv.
+
+(* ---- the whole iteration: dispatch, then doPendingFunctors (EventLoop.cc:110-129, 254-269) -----------
+   A functor (id) makes Channel API calls and may queue further functors: [fb id] = (calls, queued ids).
+   Callbacks may queue functors too ([hq c k]).  doPendingFunctors swaps the queue into a local vector and
+   runs every element: everything pending at that moment -- what was queued before the poll and what the
+   callbacks of this batch queued -- runs in THIS iteration; what the functors themselves queue stays
+   pending for the next one.  While the functors run eventHandling_ is false: no batch assert applies. *)
+Definition fnbody := nat -> list op * list nat.
+
+(* EventLoop::queueInLoop calls wakeup() iff .. (EventLoop.cc:169) *)
+Definition queue_wakes (inLoopThread callingPending looping : bool) : bool :=
+  negb inLoopThread || callingPending || negb looping.
+
+Section LoopFull.
+Variable S : Type.
+Variable step : S -> op -> res (S * active).
+
+Fixpoint run_ops (st : S) (ops : list op) : res S :=
+  match ops with
+  | [] => Ok st
+  | Poll _ _ :: _ => Rejected            (* a functor does not re-enter poll() *)
+  | o :: t => r <- step st o ;; run_ops (fst r) t
+  end.
+
+Fixpoint run_functors (fb : fnbody) (st : S) (ids : list nat) : res (S * list nat) :=
+  match ids with
+  | [] => Ok (st, [])
+  | i :: t => st1 <- run_ops st (fst (fb i)) ;; r <- run_functors fb st1 t ;; Ok (fst r, snd (fb i) ++ snd r)
+  end.
+
+(* (state, activeChannels_, callbacks run, functors run, functors left pending) *)
+Definition loop_iter_full (h : handlers) (hq : nat -> cb -> list nat) (fb : fnbody) (runs : nat -> bool)
+  (st : S) (ready : nat -> N) (choice : list nat) (pending : list nat)
+  : res (S * active * list (nat * cb) * list nat * list nat) :=
+  r <- loop_iter S step h runs st ready choice ;;
+  let ran := pending ++ flat_map (fun ck => hq (fst ck) (snd ck)) (snd r) in
+  f <- run_functors fb (fst (fst r)) ran ;;
+  Ok (fst f, snd (fst r), snd r, ran, snd f).
+End LoopFull.
+
+Definition ep_loop_iter_full := loop_iter_full ep ep_step_current.
+Definition pp_loop_iter_full_current := loop_iter_full pp pp_step_current.
+
+(* the functors' calls respect the Channel API preconditions *)
+Fixpoint ops_ok (sp : spec) (ops : list op) : Prop :=
+  match ops with
+  | [] => True
+  | o :: t => (match o with Poll _ _ => False | _ => True end) /\ sguard sp o /\ ops_ok (spec_step sp o) t
+  end.
+Fixpoint functors_ok (fb : fnbody) (sp : spec) (ids : list nat) : Prop :=
+  match ids with
+  | [] => True
+  | i :: t => ops_ok sp (fst (fb i)) /\ functors_ok fb (spec_run sp (fst (fb i))) t
+  end.
+Definition functors_ops (fb : fnbody) (ids : list nat) : list op := flat_map (fun i => fst (fb i)) ids.
+Definition functors_queued (fb : fnbody) (ids : list nat) : list nat := flat_map (fun i => snd (fb i)) ids.
+
+(* ---- several iterations, with the environment: wake-ups, timer expirations, readiness, queued tasks ----
+   [qw] = the wake-up guard of queueInLoop (queue_wakes, or the function generated from the source). *)
+Definition wake_add (n : nat) (e : kenv) : kenv := mkKenv (k_wake e + N.of_nat n) (k_texp e) (k_rd e).
+
+Inductive ext :=
+| XWake                       (* wakeup() from anywhere *)
+| XTimer                      (* the timerfd becomes due *)
+| XFd (f : nat) (bits : N)    (* the condition of descriptor f changes *)
+| XQueue (id : nat).          (* queueInLoop from another thread *)
+
+Definition apply_ext (qw : bool -> bool -> bool -> bool) (ep : kenv * list nat) (x : ext) : kenv * list nat :=
+  let (e, p) := ep in
+  match x with
+  | XWake => (wake_add 1 e, p)
+  | XTimer => (mkKenv (k_wake e) (k_texp e + 1) (k_rd e), p)
+  | XFd f b => (mkKenv (k_wake e) (k_texp e) (fun x => if Nat.eqb x f then b else k_rd e x), p)
+  | XQueue i => ((if qw false false true then wake_add 1 e else e), p ++ [i])
+  end.
+
+Section LoopRun.
+Variable S : Type.
+Variable step : S -> op -> res (S * active).
+Variables (h : handlers) (hq : nat -> cb -> list nat) (fb : fnbody) (runs : nat -> bool).
+Variable eff : nat -> cb -> kenv -> kenv.
+Variable qw : bool -> bool -> bool -> bool.
+Variables (wfd tfd : nat).
+
+(* one iteration with the environment: the callbacks' effects, then one wakeup() per functor queued by
+   a callback (if qw true false true) and per functor queued by a running functor (if qw true true true) *)
+Definition loop_iter_full_env (st : S) (e : kenv) (pending : list nat) (choice : list nat)
+  : res (S * kenv * list nat * (active * list (nat * cb) * list nat)) :=
+  r <- loop_iter_full S step h hq fb runs st (env_ready wfd tfd e) choice pending ;;
+  match r with
+  | (st', act, log, ran, pend') =>
+      let queued_by_cbs := flat_map (fun ck => hq (fst ck) (snd ck)) log in
+      let e1 := apply_effects eff log e in
+      let e2 := if qw true false true then wake_add (length queued_by_cbs) e1 else e1 in
+      let e3 := if qw true true true then wake_add (length pend') e2 else e2 in
+      Ok (st', e3, pend', (act, log, ran))
+  end.
+
+(* a run: before each poll some external events happen.  Returns the final state and, per iteration,
+   (environment at poll time, queue at poll time, what the iteration did) *)
+Fixpoint loop_run (st : S) (e : kenv) (pending : list nat) (ins : list (list ext * list nat))
+  : res (S * kenv * list nat * list (kenv * list nat * (active * list (nat * cb) * list nat))) :=
+  match ins with
+  | [] => Ok (st, e, pending, [])
+  | (xs, choice) :: t =>
+      let ep := fold_left (apply_ext qw) xs (e, pending) in
+      r <- loop_iter_full_env st (fst ep) (snd ep) choice ;;
+      match r with
+      | (st', e', p', out) =>
+          r2 <- loop_run st' e' p' t ;;
+          match r2 with (st2, e2, p2, outs) => Ok (st2, e2, p2, (fst ep, snd ep, out) :: outs) end
+      end
+  end.
+End LoopRun.
